@@ -68,7 +68,7 @@ ParseNum(s) ==
 
 IsIntegral(v) == IsNum(v) /\ v.d = 1
 
-Arity(f) == CASE f \in {"first", "last", "unwind", "to_lower", "to_upper", "constant", "fuse", "defaultkey", "getvar", "raise", "boom"} -> 1
+Arity(f) == CASE f \in {"first", "last", "unwind", "to_lower", "to_upper", "constant", "fuse", "defaultkey", "getvar", "raise", "boom", "boomt"} -> 1
               [] f \in {"elementat", "changetype", "daterange", "hash", "encode", "decode", "setvar", "raise_when"} -> 2
               [] f = "if" -> 3
               [] OTHER -> -1           \* variadic: array, concat
@@ -122,6 +122,7 @@ Builtin(f, args, consts) ==
                     ELSE HashV(NameOf(A(2), {"md5", "sha1", "sha256", "sha512"}), A(1))
    \* harness-owned probe: the identity, with a fault injected by the harness at its k-th invocation
    [] f = "boom" -> A(1)
+   [] f = "boomt" -> BoolV(TRUE)      \* the same probe for boolean positions (a join's ON)
    \* RAISE always fails; RAISE_WHEN fails iff its condition is true and otherwise contributes no column
    [] f = "raise" -> Err
    [] f = "raise_when" -> IF ~IsBool(A(1)) \/ A(1).b THEN Err ELSE [t |-> "omit"]
